@@ -69,6 +69,10 @@ func (p *Proof) IsValid(public Public) bool {
 	if p == nil {
 		return false
 	}
+	if p.Commitment == nil || p.S == nil || p.T == nil || p.Y == nil || p.Z == nil ||
+		p.W == nil || p.Z1 == nil || p.Z3 == nil {
+		return false
+	}
 	if !public.Prover.ValidateCiphertexts(p.D) {
 		return false
 	}
